@@ -256,3 +256,51 @@ def gen_typemap(repo):
     out.append(f"def nullsOffIsDtype : Bool := {'true' if off_is_dtype else 'false'}")
     out.append("end PqV.Gen.Typemap")
     return "\n".join(out) + "\n"
+
+
+@register("Nested")
+def gen_nested(repo):
+    """core.py: how `read_col` chains `_assemble_objects` over v1 pages, and how
+    `read_row_group_arrays` decides which of the two MAP leaves is the key."""
+    src = open(os.path.join(repo, "fastparquet", "core.py")).read()
+    tree = ast.parse(src)
+    fn = find_func(tree, "read_col")
+    chain = None
+    for node in ast.walk(fn):
+        # row_idx[0] = 1 + encoding._assemble_objects(...)
+        if isinstance(node, ast.Assign) and "row_idx" in ast.unparse(node.targets[0]) and "_assemble_objects" in ast.unparse(node.value):
+            v = ast.unparse(node.value).replace(" ", "")
+            if v.startswith("1+encoding._assemble_objects("):
+                chain = ("ret", node.lineno)
+        # row_idx[0] += int((rep == 0).sum())
+        if isinstance(node, ast.AugAssign) and isinstance(node.op, ast.Add) and "row_idx" in ast.unparse(node.target):
+            v = ast.unparse(node.value).replace(" ", "")
+            if v in ("int((rep==0).sum())", "(rep==0).sum()"):
+                chain = ("zeros", node.lineno)
+    if chain is None:
+        raise Unsupported("read_col: the statement that advances row_idx after _assemble_objects has an unknown shape")
+    call = [n for n in ast.walk(fn) if isinstance(n, ast.Call) and ast.unparse(n.func).endswith("_assemble_objects")]
+    if len(call) != 1:
+        raise Unsupported("read_col: expected exactly one _assemble_objects call")
+    args = [ast.unparse(a).replace(" ", "") for a in call[0].args]
+    if args != ["assign", "defi", "rep", "val", "dic", "d", "null", "null_val", "max_defi", "row_idx[0]"]:
+        raise Unsupported("read_col: _assemble_objects argument list changed: " + ",".join(args))
+    fn2 = find_func(tree, "read_row_group_arrays")
+    keysel = None
+    for node in ast.walk(fn2):
+        if isinstance(node, ast.If) and "'key'" in ast.unparse(node.test) and "path_in_schema" in ast.unparse(node.test):
+            t = ast.unparse(node.test).replace(" ", "")
+            if t == "column.meta_data.path_in_schema[0]=='key'":
+                keysel = ("first", node.lineno)
+            elif t == "column.meta_data.path_in_schema[-1]=='key'":
+                keysel = ("last", node.lineno)
+    if keysel is None:
+        raise Unsupported("read_row_group_arrays: the test that tells the key leaf from the value leaf has an unknown shape")
+    return ("-- REGENERATED on every run by tools/translate_callsites.py from fastparquet/core.py — do not edit\n"
+            "namespace PqV.Gen.Nested\n"
+            f"/-- `read_col` (line {chain[1]}) advances the row index by the number of records STARTED in the page\n"
+            "    (`true`) or sets it to 1 + the kernel's return value (`false`) -/\n"
+            f"def chainByZeros : Bool := {'true' if chain[0] == 'zeros' else 'false'}\n"
+            f"/-- `read_row_group_arrays` (line {keysel[1]}) recognises the key leaf by the LAST path component -/\n"
+            f"def keyByLeafName : Bool := {'true' if keysel[0] == 'last' else 'false'}\n"
+            "end PqV.Gen.Nested\n")
